@@ -167,7 +167,11 @@ add("C18", "other",
     "Partial. Proved in Coq about the memory operations of the VM model (PropC18.v): a written local is read back, a write "
     "touches exactly one stack cell, growth keeps every cell, Push/Pop and PushFrame/PopFrame restore the frame structure, a new "
     "frame leaves every lower cell alone. Mem18.v defines the whole history semantics twice (G: the Go algorithm with aliases and "
-    "recycled clones; A: activations owning their variables). Decided each run: ~300 generated histories (nested calls with frame "
+    "recycled clones; A: activations owning their variables); MemRefine.v proves by a simulation (the first sp cells of the Go "
+    "slice are the flattening of A's activations, the frame-pointer list their bounds, the rest junk no read sees) that on every "
+    "legal history of push, pop, frame push/pop of any width and depth, variable write/read, return-address read/write, globals "
+    "and clones into fresh or recycled memories, G shows exactly A's values and never aborts "
+    "(C18_go_memory_refines_activations). The closure-alias operations are outside that theorem (K1 lives there). Decided each run: ~300 generated histories (nested calls with frame "
     "widths 0..1000 across the growth steps, depth up to 40/1000, random mixes, forked/recycled generator memories, captured "
     "frames) are replayed on the real memory.Type and compared read by read with A and G in Coq; wide-frame programs go through "
     "Sem and the VM model; recursion depth 10^5 (10^6 thorough) runs through the binary. K1 (stale captured frame after growth) is "
